@@ -107,7 +107,8 @@ def handle (j : Json) : Json :=
                         schemaName := (getOptStr a "schemaName").getD [], fix := getB a "fix" false, debugGrammar := getB a "debugGrammar" false,
                         grammarHint := getB a "grammarHint" false, diffOnly := getB a "diffOnly" false, compact := getB a "compact" false }
     let vo : VOut := { pathValid := getB o "pathValid" true, fileExists := getB o "fileExists" true, parse := getParse o,
-                       search := getLookup o "search" .notFound, errs := getErrs o "errs", errsNoSchema := getErrs o "errsNoSchema",
+                       search := getLookup o "search" .notFound, errs := getErrs o "errs", softWarnings := getErrs o "softWarnings",
+                       errsNoSchema := getErrs o "errsNoSchema",
                        errsAfterFix := getErrs o "errsAfterFix", raises := getRaises o }
     resJson (ValidateExec genBuiltins va vo)
   | .ok "write" =>
